@@ -17,6 +17,16 @@ defaults, copy-on-write helpers, `__deepcopy__`, reset) and the Lean model
       at most two pre-emptions at lines of the copy-protection code (+ randomly
       prioritised schedules), the linearised event trace replayed on the model.
 
+  (d) phase orders (`extra`): threads running public operations (protect_via_deepcopy,
+      copy.deepcopy of instances, helpers) on values holding *gates* (switch points in
+      the middle of a copy); every interleaving of the phases = every LIFO and non-LIFO
+      order of completion, aborted copies in flight; traces replayed on the model.
+
+When the guard's statements cannot be located (`locate_guard`, `calibrate`: not a class
+with __enter__/__exit__ bodies in mutation.py, or helper code running inside a protected
+copy) the statement-level tie is reported BROKEN (never an infrastructure error) and the
+real code is explored black-box through public entry points (`blackbox_sweep`).
+
 Independent oracle: snapshot/compare of `copyreg.dispatch_table` at every
 quiescent point + "modules are not left globally copyable" + every copy succeeded.
 """
@@ -52,6 +62,10 @@ REQUIRED_THEOREMS = [
     "SpecVerif.Props.C20.legacy_leak",
     "SpecVerif.Props.C20.legacy_race",
     "SpecVerif.Props.C20.legacy_two_instances_race",
+    "SpecVerif.Props.C20.completion_order_irrelevant",
+    "SpecVerif.Props.C20.nonlifo_restored",
+    "SpecVerif.Props.C20.peruse_flag_nonlifo_leak",
+    "SpecVerif.Props.C20.peruse_flag_lifo_clean",
 ]
 RULE = (
     "sequential cases = (foreign reducer pre-installed or not) x history of copying operations: value trees "
@@ -61,7 +75,14 @@ RULE = (
     "containers, callbacks raising); distinct = distinct (foreign, op, event-trace shape). extra: fault at every "
     "k-th executed library line of each operation of a fixed operation list; 2/3 threads x all schedules with "
     "<= 2 pre-emptions at lines of protect_via_deepcopy/_modules_copyable + PCT/random-walk schedules; a "
-    "schedule is non-trivial when two threads were inside the protected region at the same time"
+    "schedule is non-trivial when two threads were inside the protected region at the same time; phase orders: "
+    "2/3 threads running public operations (protect_via_deepcopy, copy.deepcopy of instances, Holder helpers) on "
+    "values holding gates (objects whose __deepcopy__ is a switch point in the middle of the copy, optionally "
+    "raising): every interleaving of the phases, i.e. every LIFO and non-LIFO order of completion with aborted "
+    "copies in flight. When the guard's statements cannot be located (not a class with __enter__/__exit__ bodies "
+    "in mutation.py, or helper code runs inside a protected copy) the tie is reported broken and the same programs "
+    "are explored black-box (gates; <= 2 pre-emptions at the lines of whatever library functions run during a "
+    "protected copy; random walks) with the oracle of the property text only"
 )
 EXHAUSTIVE = {"quick": False, "thorough": False}
 ASSUMPTIONS = [
@@ -141,26 +162,144 @@ def setup():
         mods: List[Any] = [types]
         child: Any = None
 
-    guard = mutation._modules_copyable
-    enter_code = guard.__enter__.__code__
-    exit_code = guard.__exit__.__code__
-    lambdas = [c for c in enter_code.co_consts if isinstance(c, types.CodeType)]
+    st = locate_guard(mutation)
     pkg_dir = os.path.dirname(os.path.abspath(spec_classes.__file__)) + os.sep
     mut_file = os.path.abspath(mutation.__file__)
-    protect_codes = {mutation.protect_via_deepcopy.__code__, enter_code, exit_code, *lambdas}
-    for nm in ("__new__", "__init__"):
-        f = guard.__dict__.get(nm)
-        f = getattr(f, "__func__", f)
-        if hasattr(f, "__code__"):
-            protect_codes.add(f.__code__)
     _G.clear()
     _G.update(
-        N=N, NDnc=NDnc, Holder=Holder, Lazy=Lazy, mutation=mutation, guard=guard, enter_code=enter_code,
-        exit_code=exit_code, lambda_codes=set(lambdas), pkg_dir=pkg_dir, mut_file=mut_file,
-        protect_codes=protect_codes, foreign_code=foreign_reducer.__code__,
-        modules=[types, copy, json, itertools, os, linecache],
+        N=N, NDnc=NDnc, Holder=Holder, Lazy=Lazy, mutation=mutation, pkg_dir=pkg_dir, mut_file=mut_file,
+        foreign_code=foreign_reducer.__code__, modules=[types, copy, json, itertools, os, linecache], **st,
     )
     copyreg.dispatch_table.pop(types.ModuleType, None)
+    calibrated, plain = calibrate()
+    _G["calibrated"] = calibrated
+    if not _G["blackbox"]:
+        # the statements the micro model has are those of protect_via_deepcopy/__new__/__enter__/__exit__ and the reducer:
+        # library code beyond them running inside a plain protected copy means the guard delegates to helpers
+        helpers = sorted(f"{os.path.basename(c.co_filename)}:{c.co_name}" for c in plain - _G["protect_codes"] - _G["lambda_codes"])
+        if helpers:
+            _G["blackbox"] = f"the guard runs library code the statement-level model has no statements for: {', '.join(helpers)}"
+    if _G["blackbox"]:
+        # the statement-level tie is gone: the switch points are the lines of whatever library code runs
+        # during a protected copy (structure-agnostic), the guard bodies are whatever writes the table
+        _G["protect_codes"] = set(calibrated)
+        # (crash points inside them are outside the claim, as for __enter__/__exit__ of the class: DESIGN.md 10.10)
+        _G["guard_body_codes"] = {c for c in package_codes() | plain if c.co_name != "protect_via_deepcopy" and
+                                  (c in plain or {"dispatch_table", "copyreg"} & set(c.co_names))}
+    else:
+        _G["protect_codes"] |= _G["lambda_codes"]
+        _G["guard_body_codes"] = {_G["enter_code"], _G["exit_code"]}
+    holders = [mutation] + ([_G["guard"]] if isinstance(_G["guard"], type) else [])
+    _G["bb_scalars"] = [(h, k, v) for h in holders for k, v in list(vars(h).items())
+                        if type(v) in (int, bool) and not k.startswith("__")]
+    copyreg.dispatch_table.pop(types.ModuleType, None)
+
+
+def locate_guard(mutation):
+    """Find the statement-level anchors of the micro model: `_modules_copyable` as a class whose `__enter__` and
+    `__exit__` are plain functions of mutation.py, and `protect_via_deepcopy`. When they cannot be located (the
+    guard was restructured: a generator context manager, helper functions, another name ...) the statement-level
+    tie is BROKEN - not an infrastructure failure: `blackbox` names the reason and the check falls back to the
+    exploration through public entry points (see `blackbox_sweep`)."""
+    guard = getattr(mutation, "_modules_copyable", None)
+    protect = getattr(mutation, "protect_via_deepcopy", None)
+    why = None
+    enter_code = exit_code = None
+    lambdas, protect_codes = [], set()
+    if not isinstance(protect, types.FunctionType):
+        why = "spec_classes.utils.mutation.protect_via_deepcopy is not a plain function any more"
+    elif not isinstance(guard, type):
+        what = "missing" if guard is None else f"a {type(guard).__name__}"
+        if isinstance(guard, types.FunctionType):
+            inner = getattr(guard, "__wrapped__", guard)
+            what = f"a {'generator ' if inner.__code__.co_flags & 0x20 else ''}function"
+        why = f"_modules_copyable is {what}, not a class with __enter__/__exit__"
+    else:
+        en, ex = getattr(guard, "__enter__", None), getattr(guard, "__exit__", None)
+        if not (isinstance(en, types.FunctionType) and isinstance(ex, types.FunctionType)):
+            why = "_modules_copyable has no __enter__/__exit__ written as plain functions"
+        elif en.__code__.co_filename != protect.__code__.co_filename or ex.__code__.co_filename != protect.__code__.co_filename:
+            why = "__enter__/__exit__ of _modules_copyable are not defined in spec_classes/utils/mutation.py"
+        else:
+            enter_code, exit_code = en.__code__, ex.__code__
+            lambdas = [c for c in enter_code.co_consts if isinstance(c, types.CodeType)]
+            protect_codes = {protect.__code__, enter_code, exit_code, *lambdas}
+            for nm in ("__new__", "__init__"):
+                f = guard.__dict__.get(nm)
+                f = getattr(f, "__func__", f)
+                if hasattr(f, "__code__"):
+                    protect_codes.add(f.__code__)
+    if not isinstance(protect, types.FunctionType):
+        def protect(obj, memo=None):  # noqa: F811 - every operation through it is reported as failing
+            raise AttributeError("spec_classes.utils.mutation.protect_via_deepcopy")
+    return dict(guard=guard, protect=protect, enter_code=enter_code, exit_code=exit_code, lambda_codes=set(lambdas),
+                protect_codes=protect_codes, blackbox=why)
+
+
+def package_codes():
+    """Every code object defined in the modules of the package (functions, methods, nested)."""
+    out, seen = set(), set()
+
+    def walk(c):
+        if c in out:
+            return
+        out.add(c)
+        for k in c.co_consts:
+            if isinstance(k, types.CodeType):
+                walk(k)
+
+    def visit(o, depth):
+        if id(o) in seen:
+            return
+        seen.add(id(o))
+        o = getattr(o, "__wrapped__", o)
+        o = getattr(o, "__func__", o)
+        o = getattr(o, "fget", o) if isinstance(o, property) else o
+        if isinstance(o, types.FunctionType):
+            if o.__code__.co_filename.startswith(_G["pkg_dir"]):
+                walk(o.__code__)
+        elif isinstance(o, type) and depth < 2 and getattr(o, "__module__", "").startswith("spec_classes"):
+            for v in list(vars(o).values()):
+                visit(v, depth + 1)
+
+    for name, m in list(sys.modules.items()):
+        if m is not None and (name == "spec_classes" or name.startswith("spec_classes.")):
+            for v in list(vars(m).values()):
+                visit(v, 0)
+    return out
+
+
+def calibrate():
+    """The library code objects that run during a protected copy of plain containers holding modules and of a spec
+    instance holding modules, restricted (for the instance) to those that mention the protection machinery:
+    whatever the copy-protection code looks like, these are its functions."""
+    pkg = _G["pkg_dir"]
+    protect = _G["protect"]
+
+    def collect(fn):
+        codes = set()
+
+        def prof(frame, event, arg):
+            if event == "call" and frame.f_code.co_filename.startswith(pkg):
+                codes.add(frame.f_code)
+                if is_reducer(frame.f_code):  # wherever the library defines its reducer
+                    _G["lambda_codes"].add(frame.f_code)
+
+        sys.setprofile(prof)
+        try:
+            fn()
+        except Exception:  # noqa: BLE001 - a failing copy is reported by the oracle, not here
+            pass
+        finally:
+            sys.setprofile(None)
+        return codes
+
+    plain = collect(lambda: protect([types, {"k": [copy]}]))
+    o = _G["N"]()
+    o.__dict__.update(a=[types], b=7, c=None, boom=False)
+    names = {"protect_via_deepcopy", "_modules_copyable", "copyreg", "dispatch_table"} | {c.co_name for c in plain}
+    inst = {c for c in collect(lambda: copy.deepcopy(o)) if names & set(c.co_names)}
+    return plain | inst, plain
 
 
 def foreign_reducer(module):
@@ -182,8 +321,18 @@ def table_kind():
     return "ours"
 
 
+def is_reducer(code):
+    """The call of whatever reducer sits in the table (ours - wherever the library defines it - or the foreign one)."""
+    if code in _G["lambda_codes"] or code is _G["foreign_code"]:
+        return True
+    cur = copyreg.dispatch_table.get(types.ModuleType)
+    return cur is not None and code is getattr(cur, "__code__", None)
+
+
 def guard_state():
     g = _G["guard"]
+    if _G["blackbox"]:
+        return "?", "?"
     inst = g.__dict__.get("__instance__")
     d = getattr(inst, "__dict__", {}) if inst is not None else {}
     rc = d.get("refcount", getattr(g, "refcount", "?"))
@@ -224,7 +373,7 @@ class Recorder:
             elif code is _G["exit_code"]:
                 self.note(0, "X")
         elif event == "call":
-            if code in _G["lambda_codes"] or code is _G["foreign_code"]:
+            if is_reducer(code):
                 self.note(0, "C")
 
 
@@ -270,6 +419,10 @@ def term(v):
         return "m"
     if v == "b":
         return "b"
+    if v == "g":  # a gate: copied without any protocol event (an atom for the model)
+        return "a"
+    if v == "gb":  # a gate whose copy raises
+        return "b"
     if v[0] == "L":
         return " ".join(["L", str(len(v[2]))] + [term(c) for c in v[2]])
     if v[0] == "I":
@@ -289,6 +442,10 @@ def build(v):
         _mod_counter[0] += 1
         ms = _G["modules"]
         return ms[_mod_counter[0] % len(ms)]
+    if v == "g":
+        return Gate(False)
+    if v == "gb":
+        return Gate(True)
     if v == "b":  # a value that cannot be deep-copied
         _mod_counter[0] += 1
         k = _mod_counter[0] % 3
@@ -318,11 +475,31 @@ class RaisingDeepcopy:
         raise ValueError("deepcopy refused")
 
 
+class Gate:
+    """A value that knows when it is being deep-copied: its `__deepcopy__` is a switch point of the deterministic
+    scheduler (label "gate"), i.e. a point in the MIDDLE of a copy in progress that exists whatever the
+    copy-protection code looks like. `raises`: the copy is refused there (an exception in flight while other
+    threads are mid-copy)."""
+
+    def __init__(self, raises=False):
+        self.raises = raises
+
+    def __deepcopy__(self, memo):
+        here = self.raises  # <- the labelled line (GATE_LINE)
+        if here:
+            raise ValueError("deepcopy refused")
+        return Gate(False)
+
+
+GATE_CODE = Gate.__deepcopy__.__code__
+GATE_LINE = GATE_CODE.co_firstlineno + 1
+
+
 def guarded(v):
     """No module outside a spec instance (so a bare copy.deepcopy is the library's business)."""
     if v == "m":
         return False
-    if v == "a" or v == "b" or v[0] == "I":
+    if v in ("a", "b", "g", "gb") or v[0] == "I":
         return True
     return all(guarded(c) for c in v[2])
 
@@ -330,7 +507,7 @@ def guarded(v):
 def has_module(v):
     if v == "m":
         return True
-    if v == "a" or v == "b":
+    if v in ("a", "b", "g", "gb"):
         return False
     if v[0] == "L":
         return any(has_module(c) for c in v[2])
@@ -472,6 +649,11 @@ def gen_lib_history(rng, n):
 def reset_guard():
     """Independent runs start from the pristine bookkeeping (a run that broke it has been reported)."""
     g = _G["guard"]
+    if _G["blackbox"]:
+        # unknown bookkeeping: put the plain counters/flags of the module (and of a guard class) back
+        for h, k, v in _G["bb_scalars"]:
+            setattr(h, k, v)
+        return
     for holder in (g, g.__dict__.get("__instance__")):
         d = getattr(holder, "__dict__", None)
         if d is None:
@@ -559,8 +741,15 @@ def run_real(case):
     return out
 
 
+def tie_msg():
+    return (f"copy-protection code restructured ({_G['blackbox']}): the statement-level tie to the Lean model is broken; "
+            "explored black-box through public entry points instead")
+
+
 def model_lines(case):
-    lines = [f"init {int(case['foreign'])} 1"]
+    lines = [f"init {int(case.get('foreign', 0))} 1"]
+    if case["kind"] == "structure":
+        return lines
     if case["kind"] == "threads":
         return [_thread_replay(case)[1]]
     if case["kind"] == "fault":
@@ -575,13 +764,17 @@ def model_lines(case):
 
 
 def real_lines(case):
+    if case["kind"] == "structure":
+        return [tie_msg() if _G["blackbox"] else "ok ;; table=none rc=0 patched=0 depth=0"]
     if case["kind"] == "threads":
         return [_thread_replay(case)[0]]
     if case["kind"] == "fault":
+        if _G["blackbox"]:
+            return [tie_msg()]
         return [f"ok ;; table={'foreign' if case['foreign'] else 'none'} rc=0 patched=0 depth=0"]
     res = run_real(case)
     f = "foreign" if case["foreign"] else "none"
-    lines = [f"ok ;; table={f} rc=0 patched=0 depth=0"]
+    lines = [tie_msg() if _G["blackbox"] else f"ok ;; table={f} rc=0 patched=0 depth=0"]
     for o, err, evs, state, same, copyable, _ in res:
         head = o if case["kind"] == "values" else "ok"
         lines.append(f"{head} ;; {' '.join(s for _, s in evs)} ;; {state}")
@@ -593,6 +786,8 @@ def oracle(case):
     exactly the entries it held before; modules are not left globally copyable; no copy
     of a module-bearing value fails."""
     viol = []
+    if case["kind"] == "structure":
+        return []
     if case["kind"] == "threads":
         return _thread_replay(case)[2]
     if case["kind"] == "fault":
@@ -674,6 +869,16 @@ FIXED_VALUES = [
 def gen_cases(tier, rng):
     if tier == "search":
         while True:
+            if _G.get("blackbox") and not _G.get("hang") and rng.random() < 0.5:
+                # restructured guard: the failing-input search draws random schedules of the public thread programs
+                if rng.random() < 0.5:
+                    progs, foreign, _ = rng.choice(BB_LINE_CONFIGS)
+                else:
+                    names, foreign = rng.choice(gate_configs("quick", rng))
+                    progs = [GATE_PROGRAMS[n] for n in names]
+                yield {"kind": "threads", "progs": progs, "foreign": foreign, "fresh": 0, "points": "lines",
+                       "how": "black-box walk", "walk": [rng.randrange(2 ** 31), rng.choice([0.1, 0.3, 0.5])]}
+                continue
             if rng.random() < 0.5:
                 ops = []
                 for _ in range(rng.randint(1, 4)):
@@ -732,7 +937,7 @@ def _fault_run(spec, k, foreign):
     """Run the LAST op of spec with an exception injected at its k-th executed library line
     (k=None: just count). Returns (lines executed, fault raised?, table same?, state, outcome)."""
     pkg = _G["pkg_dir"]
-    excluded = (_G["enter_code"], _G["exit_code"])
+    excluded = _G["guard_body_codes"]
     count = [0]
     fired = [False]
 
@@ -797,7 +1002,7 @@ def fault_sweep(tier, rng):
                 case = {"kind": "fault", "op": name, "spec": spec, "k": k, "foreign": foreign}
                 if not same:
                     viol.append({"case": case, "violation": [f"exception injected at library line #{k} of {name}: copyreg.dispatch_table not restored ({state}; outcome {outcome})"]})
-                elif state != exp_state:
+                elif state != exp_state and not _G["blackbox"]:
                     # model: raise_t at any depth restores refcount/patched as well (abort_safe)
                     dis.append({"case": case, "at": k, "real": state, "model": exp_state})
                 if fired:
@@ -819,10 +1024,43 @@ THREAD_PROGRAMS_3 = [
     (["L", "list", ["m", "m"]], ["I", 0, 0, [["L", "list", ["m"]], "a", "a"]], ["I", 0, 1, [["L", "list", ["m"]], "a", "a"]]),
 ]
 
+# Thread programs through PUBLIC entry points with gates (switch points in the middle of a copy in progress):
+#   ["P", v]        protect_via_deepcopy(v)              (model: protectI v, predicted)
+#   ["D", v]        copy.deepcopy(v), v guarded           (model: deepI v, predicted)
+#   ["H", name, v]  a library helper on Holder(mods=v)    (model: the observed linearised trace is validated)
+GATE_PROGRAMS = {
+    "P-list": ["P", ["L", "list", ["m", "g", "m"]]],
+    "D-inst": ["D", ["I", 0, 0, [["L", "list", ["m", "g"]], "a", "a"]]],
+    "P-postcopy": ["P", ["I", 0, 1, [["L", "list", ["m", "g"]], "a", "a"]]],  # __post_copy__ raises after the gate
+    "P-gateraise": ["P", ["L", "list", ["m", "gb", "m"]]],  # the copy is refused at the gate
+    "P-twoblocks": ["P", ["I", 0, 0, [["L", "list", ["g"]], ["L", "dict", ["m", "g"]], "a"]]],
+    "D-twoinst": ["D", ["L", "tuple", [["I", 0, 0, [["L", "list", ["m", "g"]], "a", "a"]],
+                                        ["I", 0, 0, [["L", "list", ["g", "m"]], "a", "a"]]]]],
+    "H-with_tag": ["H", "with_tag", ["L", "list", ["m", "g"]]],
+    "H-transform_raise": ["H", "transform_raise", ["L", "list", ["m", "g"]]],
+    "H-deepcopy3": ["H", "deepcopy3", ["L", "list", ["g", "m"]]],
+    "H-with_mods": ["H", "with_mods", ["L", "list", ["m", "g"]]],
+}
+GATE_TRIPLES = [
+    ("P-list", "P-list", "P-list"),
+    ("P-list", "D-inst", "P-postcopy"),
+    ("P-gateraise", "D-inst", "P-list"),
+    ("H-with_tag", "D-inst", "P-list"),
+    ("H-transform_raise", "H-with_tag", "P-postcopy"),
+]
+
+_points = ["lines"]  # "lines": statements of the copy-protection code (+ gates); "gates": gates only
+
+
+def progs_of(case):
+    return case.get("progs") or [["P", v] for v in case["values"]]
+
 
 def _label_of(frame):
     code = frame.f_code
-    if code not in _G["protect_codes"]:
+    if code is GATE_CODE:
+        return "gate" if frame.f_lineno == GATE_LINE else None
+    if _points[0] == "gates" or code not in _G["protect_codes"]:
         return None
     lab = f"{code.co_name}:{linecache.getline(code.co_filename, frame.f_lineno).strip()[:60]}"
     if frame.f_trace_opcodes:
@@ -830,18 +1068,66 @@ def _label_of(frame):
     return lab
 
 
-def run_threads(values, foreign, policy, fresh, opcodes=False, watchdog=60.0):
-    """One scheduled execution of `protect_via_deepcopy(value_i)` in thread i."""
+def _prepare(prog):
+    """The object of a thread program, built before the threads start."""
+    if prog[0] == "H":
+        return _G["Holder"](mods=build(prog[2]))
+    return build(prog[1])
+
+
+def _operation(prog, obj):
+    kind = prog[0]
+    if kind == "P":
+        protect = _G["protect"]
+        return lambda: protect(obj) is not None
+    if kind == "D":
+        return lambda: copy.deepcopy(obj) is not None
+    name = prog[1]
+    if name == "with_tag":
+        return lambda: obj.with_tag(1) is not None
+    if name == "with_mods":
+        return lambda: obj.with_mods([types, [copy]]) is not None
+    if name == "with_mod":
+        return lambda: obj.with_mod(types) is not None
+    if name == "reset_mods":
+        return lambda: obj.reset_mods() is not None
+    if name == "deepcopy3":
+        return lambda: copy.deepcopy([{"k": (obj,)}]) is not None
+    if name == "transform_raise":
+        def boom(ms):
+            raise ValueError("transform")
+        return lambda: obj.transform_mods(boom) is not None
+    raise ValueError(prog)
+
+
+def run_threads(progs, foreign, policy, fresh, opcodes=False, watchdog=60.0, points="lines"):
+    """One scheduled execution: thread i performs the public operation `progs[i]`."""
     import sched as S
 
     g = _G["guard"]
-    objs = [build(v) for v in values]
-    protect = _G["mutation"].protect_via_deepcopy
-    fns = [(lambda o=o: protect(o) is not None) for o in objs]
+    bb = bool(_G["blackbox"])
+    objs = [_prepare(p) for p in progs]
     events = []
     depth = {}
     failed = set()
+    inflight = [0]
+    qviol = []
+    snap = {}
 
+    def op_wrapper(t, f):
+        # (harness code is not traced: between two switch points of the library it runs atomically)
+        def run():
+            inflight[0] += 1
+            try:
+                return f()
+            finally:
+                inflight[0] -= 1
+                if inflight[0] == 0 and dict(copyreg.dispatch_table) != snap["t"] and not qviol:
+                    qviol.append(f"no copy in progress after thread {t} finished {progs[t][:2] if progs[t][0] == 'H' else progs[t][0]}: "
+                                 f"copyreg.dispatch_table differs from its snapshot (table={table_kind()})")
+        return run
+
+    fns = [op_wrapper(t, _operation(p, o)) for t, (p, o) in enumerate(zip(progs, objs))]
     frames = {}  # id(frame) -> [held the guard lock at the previous event?, already recorded?]
 
     def cur_lock():
@@ -858,7 +1144,7 @@ def run_threads(values, foreign, policy, fresh, opcodes=False, watchdog=60.0):
 
     def on_trace(tid, frame, event, arg):
         code = frame.f_code
-        if code is _G["enter_code"] or code is _G["exit_code"]:
+        if not bb and (code is _G["enter_code"] or code is _G["exit_code"]):
             # linearisation point of __enter__/__exit__: the release of the guard lock (the first
             # event after it); without a lock, the return of the function
             kind = "E" if code is _G["enter_code"] else "X"
@@ -875,29 +1161,46 @@ def run_threads(values, foreign, policy, fresh, opcodes=False, watchdog=60.0):
                 frames.pop(id(frame), None)
             return
         if event == "call":
-            if code in _G["lambda_codes"] or code is _G["foreign_code"]:
+            if is_reducer(code):
                 note(tid, "C")
-        elif event == "exception" and tid not in failed and arg[0] is TypeError and "pickle" in str(arg[1]):
+        elif event == "exception" and tid not in failed and arg[0] is TypeError and "pickle" in str(arg[1]) and "module" in str(arg[1]):
             failed.add(tid)
             note(tid, "F")
 
     def want(code):
-        return code in _G["protect_codes"] or code is _G["foreign_code"]
+        return code in _G["protect_codes"] or code is _G["foreign_code"] or code is GATE_CODE or is_reducer(code)
 
-    with ForeignEntry(foreign):
-        snap = dict(copyreg.dispatch_table)
-        if fresh:
-            if "__instance__" in g.__dict__:
-                del g.__instance__  # as in a process that has not used the guard yet
-        else:
-            g()  # the guard has been used before (every run starts from the same state)
-            reset_guard()
-        oc = (_G["protect_codes"] - _G["lambda_codes"]) if opcodes else None
-        sch = S.Scheduler(fns, want, _label_of, policy, on_trace=on_trace, watchdog=watchdog, opcode_codes=oc)
-        res = sch.run()
-        same = dict(copyreg.dispatch_table) == snap
-        state = show_state([depth.get(t, 0) for t in range(len(values))])
-    return {"res": res, "events": events, "same": same, "state": state}
+    _points[0] = points
+    try:
+        with ForeignEntry(foreign):
+            snap["t"] = dict(copyreg.dispatch_table)
+            if not bb:
+                if fresh:
+                    if "__instance__" in g.__dict__:
+                        del g.__instance__  # as in a process that has not used the guard yet
+                else:
+                    g()  # the guard has been used before (every run starts from the same state)
+                    reset_guard()
+            oc = (_G["protect_codes"] - _G["lambda_codes"]) if opcodes else None
+            sch = S.Scheduler(fns, want, _label_of, policy, on_trace=on_trace, watchdog=watchdog, opcode_codes=oc)
+            try:
+                res = sch.run()
+            except S.SchedulerHang:
+                # a thread is blocked for real while another one sleeps on its baton (a lock the harness could not make
+                # cooperative): let every thread unwind (Deadlock is raised at their switch points) so that the locks
+                # they hold are released and the library stays usable in this process; no verdict from this run
+                sch.aborting = True
+                for sem in sch.go:
+                    sem.release()
+                t_end = time.time() + 10.0
+                while not sch.finished.is_set() and time.time() < t_end:
+                    time.sleep(0.05)
+                raise
+            same = dict(copyreg.dispatch_table) == snap["t"]
+            state = show_state([depth.get(t, 0) for t in range(len(progs))])
+    finally:
+        _points[0] = "lines"
+    return {"res": res, "events": events, "same": same, "state": state, "quiescent": qviol}
 
 
 def _norm_events(evs):
@@ -911,20 +1214,29 @@ def _norm_events(evs):
     return out
 
 
-def judge_threads(values, foreign, r):
+USER_ERRORS = ("post_copy", "deepcopy refused", "transform")
+
+
+def _user_error(o):
+    """The outcome of an operation that the USER's code aborted (raising __post_copy__ / __deepcopy__ / callback):
+    an aborted copy, not a failed one."""
+    return bool(o) and o[0] == "err" and o[1] == "ValueError" and any(m in o[2] for m in USER_ERRORS)
+
+
+def judge_threads(progs, foreign, r):
     """(violations of the property text, real observation string, model protocol line, overlapped?)"""
     res = r["res"]
     tids = [t for t, _, _ in r["events"]]
     real = " ".join(_norm_events([s for _, _, s in r["events"]]))
     stat = ",".join("ok" if (o and o[0] == "ok") else "err" for o in res.outcomes)
-    v = []
+    v = list(r.get("quiescent", []))
     if res.deadlock or res.livelock:
         v.append("schedule deadlocks" if res.deadlock else "schedule does not terminate")
     if not r["same"]:
         v.append(f"copyreg.dispatch_table differs from its snapshot after all threads finished ({r['state']})")
     for t, o in enumerate(res.outcomes):
-        if o and o[0] == "err" and o[1] == "ValueError" and "post_copy" in o[2]:
-            continue  # the user's __post_copy__ raised: an aborted copy, not a failed one
+        if _user_error(o):
+            continue
         if not o or o[0] != "ok":
             v.append(f"thread {t}: deep copy of a module-bearing value failed: {o}")
     d, overlap = {}, False
@@ -935,30 +1247,148 @@ def judge_threads(values, foreign, r):
             d[t] = d.get(t, 0) - 1
         if sum(1 for x in d.values() if x > 0) >= 2:
             overlap = True
-    line = f"sched {int(foreign)} | " + " | ".join(term(x) for x in values) + " | " + " ".join(str(t) for t in tids)
+    kinds = {p[0] for p in progs}
+    if "H" in kinds:
+        # library helpers: the observed linearised trace is validated step by step by the model's `step`
+        line = f"tevents {int(foreign)} {len(progs)} " + " ".join(f"{t}:{k}" for t, k, _ in r["events"])
+        return v, f"ok ;; {real} ;; {r['state']}", line, overlap
+    if kinds == {"P"}:
+        line = f"sched {int(foreign)} | " + " | ".join(term(p[1]) for p in progs) + " | " + " ".join(str(t) for t in tids)
+    else:
+        line = f"schedx {int(foreign)} | " + " | ".join(f"{p[0]} {term(p[1])}" for p in progs) + " | " + " ".join(str(t) for t in tids)
     return v, f"{real} ;; {stat} ;; {r['state']}", line, overlap
 
 
 _locks_patched = [False]
 
 
+def _lock_types():
+    import sched as S
+
+    return type(S._REAL_RLOCK()), type(S._REAL_LOCK())
+
+
+def patch_locks_anywhere():
+    """Black-box mode: every lock of the package becomes cooperative, wherever the library keeps it - names bound to
+    the lock factories and lock OBJECTS in module globals and in class attributes of the package's classes."""
+    import sched as S
+
+    rl, pl = _lock_types()
+    saved = []
+    S._ARMED[0] += 1
+
+    def put(holder, k, new):
+        if isinstance(holder, dict):
+            holder[k] = new
+        elif isinstance(holder, types.CellType):
+            holder.cell_contents = new
+        else:
+            setattr(holder, k, new)
+
+    def swap(holder, k, v):
+        new = None
+        if v is S._REAL_RLOCK or v is S._rlock_factory:
+            new = S.CoopRLock
+        elif v is S._REAL_LOCK or v is S._lock_factory:
+            new = S.CoopLock
+        elif isinstance(v, rl):
+            new = S.CoopRLock()
+        elif isinstance(v, pl):
+            new = S.CoopLock()
+        if new is not None:
+            try:
+                put(holder, k, new)
+                saved.append((holder, k, v))
+            except (AttributeError, TypeError, ValueError):
+                pass
+
+    def closure(f):
+        f = getattr(f, "__wrapped__", f)
+        f = getattr(f, "__func__", f)
+        for cell in getattr(f, "__closure__", None) or ():
+            try:
+                swap(cell, None, cell.cell_contents)
+            except ValueError:
+                pass
+
+    for name, m in list(sys.modules.items()):
+        if m is None or not (name == "spec_classes" or name.startswith("spec_classes.")):
+            continue
+        for k, v in list(vars(m).items()):
+            swap(m, k, v)
+            if isinstance(v, type) and getattr(v, "__module__", "") == name:
+                for k2, v2 in list(vars(v).items()):
+                    swap(v, k2, v2)
+                    closure(v2)
+            elif isinstance(v, dict) and not k.startswith("__"):
+                for k2, v2 in list(v.items()):
+                    swap(v, k2, v2)
+            elif getattr(v, "__module__", None) == name:
+                closure(v)
+
+    def undo():
+        S._ARMED[0] -= 1
+        for holder, k, v in reversed(saved):
+            put(holder, k, v)
+
+    return undo
+
+
+class scheduled_section:
+    """Locks cooperative + tracing kept on, for a sweep of many scheduled runs."""
+
+    def __enter__(self):
+        import sched as S
+
+        self.undo = patch_locks_anywhere() if _G["blackbox"] else S.patch_locks()
+        _locks_patched[0] = True
+        self.keep = S.keep_tracing()
+        self.keep.__enter__()
+        return self
+
+    def __exit__(self, *a):
+        self.keep.__exit__()
+        _locks_patched[0] = False
+        self.undo()
+
+
+def _policy_of(case):
+    import random
+    import sched as S
+
+    if case.get("preempt") is not None:
+        return S.AtLabels(case["preempt"], case.get("start"))
+    if case.get("walk") is not None:
+        return S.RandomWalk(random.Random(case["walk"][0]), case["walk"][1])
+    return S.Replay({k: t for k, t in enumerate(case["schedule"])})
+
+
 def _thread_replay(case):
     """Re-run a recorded thread case: (real string, model line, violations)."""
     import sched as S
 
-    undo = None
+    if _G.get("hang"):
+        return tie_msg(), f"init {int(case['foreign'])} 1", []
+    sec = None
     if not _locks_patched[0]:
-        undo = S.patch_locks()
+        sec = scheduled_section()
+        sec.__enter__()
     try:
-        if case.get("preempt") is not None:
-            pol = S.AtLabels(case["preempt"], case.get("start"))
-        else:
-            pol = S.Replay({k: t for k, t in enumerate(case["schedule"])})
-        r = run_threads(case["values"], case["foreign"], pol, case["fresh"], opcodes=case.get("opcodes", False))
+        progs = progs_of(case)
+        try:
+            r = run_threads(progs, case["foreign"], _policy_of(case), case.get("fresh", 0), opcodes=case.get("opcodes", False),
+                            points=case.get("points", "lines"), watchdog=10.0 if _G["blackbox"] else 60.0)
+        except S.SchedulerHang:
+            if not _G["blackbox"]:
+                raise
+            _G["hang"] = True  # a thread blocks for real (see blackbox_sweep): no verdicts from scheduled runs any more
+            return tie_msg(), f"init {int(case['foreign'])} 1", []
     finally:
-        if undo:
-            undo()
-    v, real, line, _ = judge_threads(case["values"], case["foreign"], r)
+        if sec:
+            sec.__exit__()
+    v, real, line, _ = judge_threads(progs, case["foreign"], r)
+    if _G["blackbox"]:
+        return tie_msg(), f"init {int(case['foreign'])} 1", v
     return real, line, v
 
 
@@ -981,19 +1411,16 @@ def thread_sweep(tier, rng, part="lines"):
     part = "opcodes": switch points are its bytecodes (run in a child process, see `extra`)."""
     import sched as S
 
-    undo = S.patch_locks()
-    _locks_patched[0] = True
-    keep = S.keep_tracing()
-    keep.__enter__()
     pending = []  # (case, real string, model line)
     viol, nt = [], []
     info = {"schedules": 0, "overlapping": 0, "deadlocks": 0, "by_config": {}}
-    budget = (45 if tier == "quick" else 500) * (0.7 if part == "lines" else 0.3)
+    budget = (41 if tier == "quick" else 500) * (0.7 if part == "lines" else 0.3)
     t_start = time.time()
-    try:
+    with scheduled_section():
         def record(values, foreign, fresh, opcodes, r, how):
             info["schedules"] += 1
-            v, real, line, overlap = judge_threads(values, foreign, r)
+            progs = [["P", x] for x in values]
+            v, real, line, overlap = judge_threads(progs, foreign, r)
             case = {"kind": "threads", "values": values, "foreign": foreign, "fresh": fresh, "opcodes": opcodes,
                     "how": how, "schedule": [d.chosen for d in r["res"].decisions]}
             if r["res"].deadlock or r["res"].livelock:
@@ -1008,8 +1435,10 @@ def thread_sweep(tier, rng, part="lines"):
         # (values, foreign, fresh, bound, opcodes, point filter)
         configs = []
         progs2 = THREAD_PROGRAMS_2 if tier == "thorough" else THREAD_PROGRAMS_2[:2]
-        for values in progs2:
+        for i, values in enumerate(progs2):
             for foreign, fresh in ((0, 0), (0, 1), (1, 0)):
+                if tier == "quick" and i == 1 and fresh:
+                    continue  # (first use differs only in `__new__`: covered with the first pair and the new-race config)
                 configs.append((list(values), foreign, fresh, 2, False, None))
         # first use: two guard instances get created when both threads pass `hasattr` first
         configs.append((list(THREAD_PROGRAMS_2[0]), 0, 1, 4, False, NEW_RACE_LABELS))
@@ -1032,7 +1461,7 @@ def thread_sweep(tier, rng, part="lines"):
             last = {}
 
             def run_res(pol):
-                last["r"] = run_threads(values, foreign, pol, fresh, opcodes=opcodes)
+                last["r"] = run_threads([["P", x] for x in values], foreign, pol, fresh, opcodes=opcodes)
                 return last["r"]["res"]
 
             ok = labels if callable(labels) else (lambda lab: isinstance(lab, str) and lab.startswith(labels)) if labels else None
@@ -1063,14 +1492,158 @@ def thread_sweep(tier, rng, part="lines"):
             else:
                 pol = S.RandomWalk(rng, rng.choice([0.1, 0.3, 0.5]))
                 how = "walk"
-            r = run_threads(values, foreign, pol, fresh, opcodes=opcodes)
+            r = run_threads([["P", x] for x in values], foreign, pol, fresh, opcodes=opcodes)
             record(values, foreign, fresh, opcodes, r, how)
         info["random_schedules"] = nrand
-    finally:
-        keep.__exit__()
-        _locks_patched[0] = False
-        undo()
     return info["schedules"], nt, viol, pending, info
+
+
+def gate_configs(tier, rng, helpers=True):
+    """(programs, foreign) of the phase-order exploration: every unordered pair of gate programs, a few triples."""
+    names = [n for n in GATE_PROGRAMS if helpers or not n.startswith("H-")]
+    pairs = [(a, b) for i, a in enumerate(names) for b in names[i:]]
+    out = []
+    for a, b in pairs:
+        out.append(([a, b], 0))
+    for a, b in (("P-list", "D-inst"), ("P-postcopy", "H-with_tag"), ("P-gateraise", "P-twoblocks")):
+        out.append(([a, b], 1))
+    for tr in GATE_TRIPLES:
+        out.append((list(tr), 0))
+    out.append((list(GATE_TRIPLES[1]), 1))
+    if tier == "thorough":
+        one = ["P-list", "D-inst", "P-postcopy", "P-gateraise", "H-with_tag"]
+        for tr in itertools.combinations_with_replacement(one, 3):
+            if tr not in GATE_TRIPLES:
+                out.append((list(tr), 0))
+    return out
+
+
+def gate_sweep(tier, rng, budget, stop_at_first=False):
+    """Phase orders of public operations: switch points ONLY at the gates (each inside a copy in progress), every
+    interleaving of the resulting phases for 2 and 3 threads - in particular every non-LIFO order of completion
+    (A begins, B begins, A finishes, B finishes), with aborted copies (raising gate / __post_copy__ / callback)
+    in flight. Judged by the oracle of the property text; on the unchanged structure every linearised event
+    trace is also replayed on the Lean model."""
+    import sched as S
+
+    pending, viol, nt = [], [], []
+    info = {"schedules": 0, "overlapping": 0, "configs": 0, "complete": True, "sampled_configs": 0}
+    t0 = time.time()
+    configs = gate_configs(tier, rng)
+    if tier == "quick":
+        # all pairs every run would cost ~2x the budget: the P/D pairs and triples always, the rest sampled per seed
+        core = [c for c in configs if len(c[0]) == 3 or all(n in ("P-list", "D-inst", "P-postcopy", "P-gateraise") for n in c[0])]
+        rest = [c for c in configs if c not in core]
+        rng.shuffle(rest)
+        configs = core + rest
+    with scheduled_section():
+        for names, foreign in configs:
+            if time.time() - t0 > budget:
+                info["complete"] = False
+                break
+            progs = [GATE_PROGRAMS[n] for n in names]
+            last = {}
+
+            def run_res(pol):
+                last["r"] = run_threads(progs, foreign, pol, 0, points="gates", watchdog=10.0 if _G["blackbox"] else 60.0)
+                return last["r"]["res"]
+
+            info["configs"] += 1
+            for dec, used, res in S.explore(run_res, 99):
+                r = last["r"]
+                info["schedules"] += 1
+                v, real, line, overlap = judge_threads(progs, foreign, r)
+                case = {"kind": "threads", "progs": progs, "names": names, "foreign": foreign, "fresh": 0, "points": "gates",
+                        "how": "gates: all phase orders", "schedule": [d.chosen for d in res.decisions]}
+                if v:
+                    viol.append({"case": case, "violation": v})
+                    if stop_at_first:
+                        return info["schedules"], nt, viol, pending, info
+                if overlap or _G["blackbox"]:
+                    info["overlapping"] += 1
+                    nt.append(("gates", tuple(names), foreign, tuple(case["schedule"])))
+                pending.append((case, real, line))
+    info["wall_s"] = round(time.time() - t0, 1)
+    return info["schedules"], nt, viol, pending, info
+
+
+BB_LINE_CONFIGS = [
+    # (programs, foreign, bound)
+    ([["P", THREAD_PROGRAMS_2[0][0]], ["P", THREAD_PROGRAMS_2[0][1]]], 0, 2),
+    ([["P", THREAD_PROGRAMS_2[1][0]], ["P", THREAD_PROGRAMS_2[1][1]]], 0, 2),
+    ([["D", ["I", 0, 0, [["L", "list", ["m"]], "a", "a"]]], ["H", "with_tag", ["L", "list", ["m"]]]], 0, 2),
+    ([["P", THREAD_PROGRAMS_2[2][0]], ["P", THREAD_PROGRAMS_2[2][1]]], 0, 2),
+    ([["P", THREAD_PROGRAMS_2[0][0]], ["P", THREAD_PROGRAMS_2[0][1]]], 1, 2),
+    ([["P", v] for v in THREAD_PROGRAMS_3[0]], 0, 2),
+    ([["P", v] for v in THREAD_PROGRAMS_3[1]], 0, 1),
+]
+
+
+def blackbox_sweep(tier, rng):
+    """The statement-level anchors are gone (`_G["blackbox"]`): explore the REAL code through public entry points only
+    (protect_via_deepcopy, copy.deepcopy of instances holding modules, helpers) under the deterministic scheduler -
+    (1) all phase orders at the gates, (2) every schedule with <= 2 pre-emptions (3 threads: <= 2, then <= 1) at
+    the LINES of whatever library functions run during a protected copy, (3) randomly prioritised schedules -
+    with the oracle of the property text. Stops at the first counterexample."""
+    import sched as S
+
+    t0 = time.time()
+    budget = 40 if tier == "quick" else 400
+    n, nt, viol = 0, [], []
+    info = {"why": _G["blackbox"], "switch_point_functions": sorted(f"{os.path.basename(c.co_filename)}:{c.co_name}" for c in _G["protect_codes"])}
+    try:
+        n, nt, viol, _, ginfo = gate_sweep(tier, rng, budget * 0.3, stop_at_first=True)
+        info["gates"] = ginfo
+        if viol:
+            return n, nt, viol, info
+        info["lines"] = {}
+        with scheduled_section():
+            share = budget * 0.5 / len(BB_LINE_CONFIGS)
+            for progs, foreign, bound in BB_LINE_CONFIGS:
+                t_cfg = time.time()
+                last = {}
+                k = 0
+                complete = True
+
+                def run_res(pol):
+                    last["r"] = run_threads(progs, foreign, pol, 0, points="lines", watchdog=10.0)
+                    return last["r"]["res"]
+
+                for dec, used, res in S.explore(run_res, bound):
+                    n += 1
+                    k += 1
+                    v, _, _, _ = judge_threads(progs, foreign, last["r"])
+                    case = {"kind": "threads", "progs": progs, "foreign": foreign, "fresh": 0, "points": "lines",
+                            "how": f"black-box explore<={bound}", "schedule": [d.chosen for d in res.decisions],
+                            "labels": [d.label for d in res.decisions if d.chosen != d.cur and not d.forced]}
+                    nt.append(("bb-lines", json.dumps(progs), foreign, tuple(case["schedule"])))
+                    if v:
+                        viol.append({"case": case, "violation": v})
+                        return n, nt, viol, info
+                    if time.time() - t_cfg > share:
+                        complete = False
+                        break
+                info["lines"][f"{len(progs)}thr/f{foreign}/bound{bound}/{json.dumps(progs)[:40]}"] = {"schedules": k, "complete": complete}
+            nrand = 0
+            while time.time() - t0 < budget:
+                progs, foreign, _ = rng.choice(BB_LINE_CONFIGS)
+                seed, p = rng.randrange(2 ** 31), rng.choice([0.1, 0.3, 0.5])
+                case = {"kind": "threads", "progs": progs, "foreign": foreign, "fresh": 0, "points": "lines", "how": "black-box walk", "walk": [seed, p]}
+                r = run_threads(progs, foreign, _policy_of(case), 0, points="lines", watchdog=10.0)
+                n += 1
+                nrand += 1
+                v, _, _, _ = judge_threads(progs, foreign, r)
+                if v:
+                    viol.append({"case": case, "violation": v})
+                    return n, nt, viol, info
+            info["random_schedules"] = nrand
+    except S.SchedulerHang as e:
+        # a thread blocked for real (a lock the harness could not make cooperative, a busy wait): no verdict from
+        # this run; the broken tie is reported as such
+        info["inconclusive"] = str(e)
+        _G["hang"] = True
+    info["wall_s"] = round(time.time() - t0, 1)
+    return n, nt, viol, info
 
 
 def replay_on_model(pending):
@@ -1117,12 +1690,37 @@ def _opcode_child_main(tier, seed):
     print(json.dumps({"n": n, "nt": [list(x) for x in nt], "viol": viol[:200], "pending": pending, "info": info}))
 
 
+def extra_blackbox(tier, rng):
+    """The guard was restructured: fault sweep (oracle only) + black-box schedule exploration; the broken tie itself
+    is a disagreement (reported as broken-correspondence when no failing input turns up)."""
+    t0 = time.time()
+    e1, nt1, v1, _, per_op = fault_sweep(tier, rng)
+    t1 = time.time()
+    e2, nt2, v2, binfo = blackbox_sweep(tier, rng)
+    t2 = time.time()
+    dis = [{"case": {"kind": "structure", "foreign": 0, "why": _G["blackbox"]}, "at": 0, "real": tie_msg(),
+            "model": "class _modules_copyable with __enter__/__exit__ bodies under one class-level lock (Micro model, micro_safe)"}]
+    return {
+        "evaluations": e1 + e2,
+        "nontrivial": nt1 + nt2,
+        "violations": (v2 + v1)[:50],
+        "disagreements": dis,
+        "info": {"blackbox": binfo, "fault_sweep": {"runs": e1, "per_op": per_op, "wall_s": round(t1 - t0, 1)},
+                 "blackbox_wall_s": round(t2 - t1, 1), "violations_total": len(v1) + len(v2), "disagreements_total": 1},
+    }
+
+
 def extra(tier, rng):
+    if _G["blackbox"]:
+        return extra_blackbox(tier, rng)
     t0 = time.time()
     e1, nt1, v1, d1, per_op = fault_sweep(tier, rng)
     t1 = time.time()
     child_seed = rng.randrange(2 ** 31)
     e2, nt2, v2, pending, tinfo = thread_sweep(tier, rng, part="lines")
+    eg, ntg, vg, pg, ginfo = gate_sweep(tier, rng, 4.0 if tier == "quick" else 120.0)
+    e2, nt2, v2, pending = e2 + eg, nt2 + ntg, v2 + vg, pending + pg
+    tinfo["gate_phase_orders"] = ginfo
     t2 = time.time()
     child, why = opcode_sweep_in_child(tier, child_seed)
     d2 = []
@@ -1155,7 +1753,7 @@ def extra(tier, rng):
 KNOWN_MATCHERS = {}
 
 MANIFEST_ENTRY = {
-    "level_text": "Lean 4 proof, for any number of threads, any nesting depth and any interleaving of enter/exit/copy/raise steps, that the copy-protection protocol of spec_classes.utils.mutation keeps the invariant (refcount = number of open protected blocks; entry present while anybody is inside; patched flag means the entry is ours and none existed before), hence: at every quiescent point copyreg.dispatch_table[ModuleType] is exactly what it was before the library was used (also with a foreign reducer present), every thread inside a copy always finds a reducer, __exit__ never raises, and an exception at any point inside a protected block unwinds to a restored state; every protect_via_deepcopy/deepcopy of any value tree (containers, instances, uncopyable values, raising __post_copy__) is a well-bracketed instance of the protocol, and any history of them, interleaved with another library changing its own registration at quiescent points, ends with the table the environment last put there; a statement-level model (every statement of __enter__/__exit__ a separate step, the class-level lock explicit) is proved safe under every interleaving of single statements, so the atomicity of enter/exit is derived, not assumed. Tied to /repo on every run by (a) predicted event traces of value trees and validated event traces of library-operation histories, (b) a fault injected at executed library lines of copying operations, (c) real threads under a deterministic scheduler: all schedules with <= 2 pre-emptions at every statement of the copy-protection code (and at its bytecodes for the statements touching the counter), a first-use scenario creating two guard instances, plus random-priority schedules, each linearised trace replayed on the model. PARTIAL for schedules: pre-emption inside C code (copy internals, dict operations), free-threaded builds and concurrent foreign writers of copyreg are not expressible in the model.",
+    "level_text": "Lean 4 proof, for any number of threads, any nesting depth and any interleaving of enter/exit/copy/raise steps, that the copy-protection protocol of spec_classes.utils.mutation keeps the invariant (refcount = number of open protected blocks; entry present while anybody is inside; patched flag means the entry is ours and none existed before), hence: at every quiescent point copyreg.dispatch_table[ModuleType] is exactly what it was before the library was used (also with a foreign reducer present), every thread inside a copy always finds a reducer, __exit__ never raises, and an exception at any point inside a protected block unwinds to a restored state; every protect_via_deepcopy/deepcopy of any value tree (containers, instances, uncopyable values, raising __post_copy__) is a well-bracketed instance of the protocol, and any history of them, interleaved with another library changing its own registration at quiescent points, ends with the table the environment last put there; a statement-level model (every statement of __enter__/__exit__ a separate step, the class-level lock explicit) is proved safe under every interleaving of single statements, so the atomicity of enter/exit is derived, not assumed. Tied to /repo on every run by (a) predicted event traces of value trees and validated event traces of library-operation histories, (b) a fault injected at executed library lines of copying operations, (c) real threads under a deterministic scheduler: all schedules with <= 2 pre-emptions at every statement of the copy-protection code (and at its bytecodes for the statements touching the counter), a first-use scenario creating two guard instances, plus random-priority schedules, each linearised trace replayed on the model, (d) public operations (protect_via_deepcopy, copy.deepcopy of instances, copy-on-write helpers) in 2/3 threads on values holding gates (switch points inside a copy in progress, optionally raising): every interleaving of the phases, i.e. every LIFO and non-LIFO order of completion (proved irrelevant: completion_order_irrelevant, nonlifo_restored; a per-use patched flag is refuted by peruse_flag_nonlifo_leak). If the guard is restructured so that its statements cannot be located, the tie is reported broken and the same programs are explored black-box at the lines of whatever library code runs during a protected copy. PARTIAL for schedules: pre-emption inside C code (copy internals, dict operations), free-threaded builds and concurrent foreign writers of copyreg are not expressible in the model.",
     "level_note": "Trusted: Lean kernel; axioms propext/Classical.choice/Quot.sound only; the hand-written protocol model; harness/sched.py and the CPython guarantee that a statement of __enter__/__exit__ is the unit of pre-emption; faults inside the bodies of __enter__/__exit__ themselves are excluded by design (DESIGN.md section 10 item 10). Pre-fix code is kept as Legacy counter-models with decide-checked witnesses (nested leak, two-thread failing copy, two guard instances).",
     "technique": "Lean 4 inductive invariant over an interleaving transition system + well-bracketedness of compiled copy programs; differential trace correspondence, fault injection and deterministic schedule exploration against the real code",
 }
